@@ -9,7 +9,7 @@
 (***************************************************************************)
 EXTENDS Integers, Sequences, FiniteSets, TLC, Json
 
-CONSTANTS NsOffset,     \* Options.NamespaceOffset (-1 = off)
+CONSTANTS NsOffset,     \* Options.NamespaceOffset (1000 stands for -1 = off; cfg files have no negative numbers)
           InMemory,     \* Options.InMemory
           Thr,          \* value threshold
           VlogFileSize, \* Options.ValueLogFileSize
@@ -21,7 +21,7 @@ S == INSTANCE TxnSize WITH MaxSize <- 0, MaxCount <- 0, Threshold <- Thr, Reserv
                            Dists <- {}, Digits <- {}, MaxAdds <- 0,
                            size <- 0, count <- 0, ents <- <<>>, nadds <- 0, st <- "open"
 
-NsOn == NsOffset >= 0
+NsOn == NsOffset < 1000
 Off == IF NsOn THEN NsOffset ELSE 0
 \* the abstract key of a class: length, reserved prefix, namespace id in its bytes (0 = none)
 KeyOf(c) ==
